@@ -128,6 +128,10 @@ def gen_cases(rng, tier):
                         for ctx in ctxs:
                             cases.append({"kind": "cell", "engine": eng, "op": op, "pos": pos, "other": kind,
                                           "src": cell_source(op, pos, src, ctx), "ctx": ctx, "rec": recspec})
+    # helper functions: every helper x field lists mixing present and missing names x engine
+    rh = rng.fork("helper")
+    for _ in range({"quick": 400, "thorough": 4000, "search": 800}[tier]):
+        cases.append(gen_helper(rh))
     n = {"quick": 300, "thorough": 6000, "search": 1000}[tier]
     r = rng.fork("stream")
     for _ in range(n):
@@ -159,21 +163,57 @@ def gen_stream(r):
     nsrc = 1 if via == "reader" else r.randint(1, 3)
     sources = []
     idx = 0
+    # one record type NAME for all shapes in a third of the streams (schema evolution: same name, different fields)
+    same = r.chance(35)
+    nm = (lambda shape: "t/evolving") if same else (lambda shape: "t/" + shape)
     for _ in range(nsrc):
         recs = []
         for _ in range(r.randint(1, 12)):
             shape = r.weighted([(4, "has"), (4, "lacks"), (1, "other_type")])
             if shape == "has":
-                recs.append(["t/has", [[ft, "x", r.choice(STREAM_VALUES[ft])], ["varint", "idx", idx]]])
+                recs.append([nm("has"), [[ft, "x", r.choice(STREAM_VALUES[ft])], ["varint", "idx", idx]]])
             elif shape == "lacks":
-                recs.append(["t/lacks", [["string", "y", r.choice(["abc", "q"])], ["varint", "idx", idx]]])
+                recs.append([nm("lacks"), [["string", "y", r.choice(["abc", "q"])], ["varint", "idx", idx]]])
             else:
                 ot = "string" if ft != "string" else "varint"
-                recs.append(["t/other", [[ot, "x", r.choice(STREAM_VALUES[ot])], ["varint", "idx", idx]]])
+                recs.append([nm("other"), [[ot, "x", r.choice(STREAM_VALUES[ot])], ["varint", "idx", idx]]])
             idx += 1
         sources.append(recs)
     src = f"r.x {op} {const}" if pos == "L" else f"{const} {op} r.x"
     return {"kind": "stream", "engine": engine, "op": op, "pos": pos, "src": src, "via": via, "sources": sources}
+
+
+HELPER_PRESENT = ["s", "t", "u"]
+HELPER_MISSING = ["nosuch", "gone", "x9"]
+
+
+def gen_helper(r):
+    """`helper(r, [field names], strings | regex)`: names of string fields the record has, mixed with names it lacks,
+    in every position; a few records also hold None or a non-text value (then the helper may raise with or without
+    the missing names — the expectation is only that the missing names change nothing)."""
+    helper = r.choice(["field_contains", "field_equals", "field_regex"])
+    rec = [["string", "s", r.choice(["abc", "xabcx", "", "Zz top", "b"])], ["string", "t", r.choice(["abc", "q", "B", "a b"])],
+           ["string", "u", r.weighted([(5, "Abc"), (1, None)])], ["varint", "idx", r.randint(0, 9)]]
+    k = r.randint(0, 3)
+    names = r.sample(HELPER_PRESENT, r.randint(0, 3)) + r.sample(HELPER_MISSING, k)
+    order = list(names)
+    for i in range(len(order) - 1, 0, -1):       # shuffle
+        j = r.below(i + 1)
+        order[i], order[j] = order[j], order[i]
+    if not any(n in HELPER_MISSING for n in order):
+        order.insert(r.below(len(order) + 1), "nosuch")
+    seq = r.choice(["list", "tuple"])
+    lit = (lambda xs: "[" + ", ".join(repr(x) for x in xs) + "]") if seq == "list" else \
+        (lambda xs: "(" + "".join(repr(x) + ", " for x in xs) + ")")
+    if helper == "field_regex":
+        arg = repr(r.choice(["abc", "b", "Zz", "q", "a b", "top", "nomatch", "x"]))
+        kw = ""
+    else:
+        arg = "[" + ", ".join(repr(x) for x in r.sample(["abc", "B", "q", "zz top", "x", ""], r.randint(1, 2))) + "]"
+        kw = r.choice(["", "", ", nocase=False", ", nocase=True"])
+    present = [n for n in order if n in HELPER_PRESENT]
+    return {"kind": "helper", "engine": r.choice(ENGINES), "helper": helper, "rec": rec,
+            "src": f"{helper}(r, {lit(order)}, {arg}{kw})", "src_present": f"{helper}(r, {lit(present)}, {arg}{kw})"}
 
 
 def _err(e):
@@ -208,6 +248,15 @@ def run_real(case):
             return {"value": SA.value_json(v)}
         except Exception as e:
             return _err(e)
+    if case["kind"] == "helper":
+        rec = build_record("t/helper", case["rec"])
+        out = {}
+        for key in ("src", "src_present"):
+            try:
+                out[key] = {"value": SA.value_json(_selector(case["engine"], case[key]).match(rec))}
+            except Exception as e:
+                out[key] = _err(e)
+        return out
     # ---- stream
     blobs, expected, undecided = [], [], []
     for recs in case["sources"]:
@@ -276,6 +325,14 @@ def oracle(case, obs):
             return (f"{case['engine']} engine: `{case['src']}` evaluates to {obs['value']} — the comparison with the "
                     f"missing field is not False (expected {want})")
         return None
+    if case["kind"] == "helper":
+        full, pres = obs["src"], obs["src_present"]
+        a = full.get("value", full.get("error"))
+        b = pres.get("value", pres.get("error"))
+        if a != b:
+            return (f"{case['engine']} engine: `{case['src']}` gives {a} {full.get('msg', '')} but over the fields the "
+                    f"record has (`{case['src_present']}`) the helper gives {b}: missing fields are not skipped")
+        return None
     if obs["raised"]:
         return (f"filtering with `{case['src']}` ({case['engine']}, {case['via']}) raised {obs['raised']['error']}: "
                 f"{obs['raised']['msg']}")
@@ -294,6 +351,10 @@ def model_op(case, obs):
         rec = build_record("t/cell", case["rec"])
         return {"op": "sel_eval", "engine": case["engine"], "expr": SA.expr_json(case["src"]),
                 "record": SA.record_json(rec)}
+    if case["kind"] == "helper":
+        rec = build_record("t/helper", case["rec"])
+        return {"op": "sel_eval", "engine": case["engine"], "expr": SA.expr_json(case["src"]),
+                "record": SA.record_json(rec)}
     und = set(obs["undecided"])
     recs, bounds = [], []
     for srcrecs in case["sources"]:
@@ -306,7 +367,9 @@ def model_op(case, obs):
 
 
 def compare(case, obs, m):
-    if case["kind"] == "cell":
+    if case["kind"] == "helper":
+        obs = obs["src"]
+    if case["kind"] in ("cell", "helper"):
         if "error" in obs:
             if m.get("error") != obs["error"]:
                 return f"implementation raises {obs['error']}, model gives {m}"
@@ -329,13 +392,16 @@ def compare(case, obs, m):
 
 
 def nontrivial(case, obs):
-    if case["kind"] == "cell":
+    if case["kind"] in ("cell", "helper"):
         return True
-    return any(name != "t/has" for recs in case["sources"] for name, _ in recs) and \
-        any(name == "t/has" for recs in case["sources"] for name, _ in recs)
+    has = [fields[0][1] == "x" and len(fields) == 2 for recs in case["sources"] for _, fields in recs]
+    return any(has) and not all(has)
 
 
 def classify(case, obs):
+    if case["kind"] == "helper":
+        o = obs["src"]
+        return [f"helper:{case['helper']}:{case['engine']}:{o.get('error') or o['value'][1]}"]
     if case["kind"] == "cell":
         res = obs.get("error") or str(obs["value"][1])
         return [f"cell:{case['engine']}:{case['op']}:{case['pos']}:{res}", f"ctx:{case['ctx']}"]
@@ -344,6 +410,8 @@ def classify(case, obs):
 
 
 def shrink(case):
+    if case["kind"] == "helper":
+        return
     if case["kind"] == "cell":
         if case["ctx"] != "bare":
             c = dict(case)
